@@ -87,6 +87,7 @@ type fragReader struct {
 	k     int
 	ewd   bool
 	reads int
+	fail  error // when set, the end of data is reported with this error instead of io.EOF
 }
 
 func nats(s string) []int {
@@ -140,6 +141,9 @@ func (r *fragReader) Read(p []byte) (int, error) {
 	}
 	f, ok := r.nextFrag()
 	if r.pos >= len(r.data) {
+		if r.fail != nil {
+			return 0, r.fail
+		}
 		return 0, io.EOF
 	}
 	k := len(p)
@@ -193,7 +197,13 @@ type params struct {
 	min, max, log uint64
 }
 
+// customSplitter is what the chunkers registered by the `register` op return.
+type customSplitter struct{ chunk.Splitter }
+
 func describe(s chunk.Splitter) params {
+	if _, ok := s.(*customSplitter); ok {
+		return params{kind: "custom"}
+	}
 	v := reflect.ValueOf(s)
 	switch fmt.Sprintf("%T", s) {
 	case "*chunk.sizeSplitterv2":
@@ -295,7 +305,7 @@ func exec(c vh.Case, o *vh.Out) {
 			o.Kind("parse-" + p.kind)
 			checkParams(o, spec, p)
 			o.Emit("%s", p.String())
-		case len(f) == 6 && f[0] == "split":
+		case len(f) == 6 && (f[0] == "split" || f[0] == "chan"):
 			spec := specOf(f[1])
 			data := inputOf(f[4])
 			fr := newFragReader(data, f[3], f[2] == "1")
@@ -307,7 +317,41 @@ func exec(c vh.Case, o *vh.Out) {
 			}
 			p := describe(s)
 			checkParams(o, spec, p)
-			chunks, sticky, ok := runAll(s, len(data)+1)
+			if s.Reader() != io.Reader(fr) {
+				o.Fail("reader-accessor", "spec %q: Reader() is not the reader the splitter was built on", spec)
+			}
+			var chunks [][]byte
+			var sticky, ok bool
+			if f[0] == "chan" {
+				// chunk.Chan: a goroutine sends every chunk, then the first error
+				out, errs := chunk.Chan(s)
+				for c := range out {
+					chunks = append(chunks, append([]byte(nil), c...))
+				}
+				e, got := <-errs
+				ok = got && errors.Is(e, io.EOF)
+				if _, more := <-errs; more {
+					o.Fail("chan-errs", "spec %q: more than one error on the error channel", spec)
+				}
+				_, e2 := s.NextBytes()
+				sticky = errors.Is(e2, io.EOF)
+				o.Kind("chan")
+			} else {
+				chunks, sticky, ok = runAll(s, len(data)+1)
+			}
+			// the constructor functions give the same splitter as the spec string
+			if p.kind == "size" {
+				var s3 chunk.Splitter
+				if spec == "" || spec == "default" {
+					s3 = chunk.DefaultSplitter(bytes.NewReader(data))
+				} else {
+					s3 = chunk.SizeSplitterGen(int64(p.min))(bytes.NewReader(data))
+				}
+				c3, _, _ := runAll(s3, len(data)+1)
+				if rle(lensOf(c3)) != rle(lensOf(chunks)) {
+					o.Fail("size-ctor", "spec %q: SizeSplitterGen/DefaultSplitter chunk differently from FromString", spec)
+				}
+			}
 			if !ok {
 				o.Fail("splitter-error", "spec %q: non-EOF error or more chunks than bytes", spec)
 			}
@@ -370,11 +414,79 @@ func exec(c vh.Case, o *vh.Out) {
 				tot += l
 			}
 			o.Emit("n=%d total=%d lens=%s", len(lens), tot, rle(lens))
+		case len(f) == 2 && f[0] == "register":
+			name := specOf(f[1])
+			res := "ok"
+			func() {
+				defer func() {
+					if recover() != nil {
+						res = "panic"
+					}
+				}()
+				chunk.Register(name, func(r io.Reader, spec string) (chunk.Splitter, error) {
+					return &customSplitter{chunk.NewSizeSplitter(r, 7)}, nil
+				})
+			}()
+			// monitor: Register accepts exactly non-empty, dash-free, unused names
+			want := "ok"
+			if name == "" || strings.Contains(name, "-") || registered[name] {
+				want = "panic"
+			}
+			if res != want {
+				o.Fail("register", "Register(%q): %s, want %s", name, res, want)
+			}
+			if res == "ok" {
+				registered[name] = true
+			}
+			o.Kind("register-" + res)
+			o.Emit("%s", res)
+		case len(f) == 5 && f[0] == "fail":
+			// a reader that fails with a non-EOF error at position pos: the error must surface, nothing may
+			// panic, and what was emitted before must be the first chunks of the error-free run
+			spec := specOf(f[1])
+			data := inputOf(f[3])
+			pos := vh.Atoi(f[4])
+			if pos > len(data) {
+				pos = len(data)
+			}
+			fr := newFragReader(data[:pos], f[2], false)
+			fr.fail = errInjected
+			s, err := chunk.FromString(fr, spec)
+			if err == nil {
+				var got [][]byte
+				var first error
+				for len(got) <= len(data) {
+					c, e := s.NextBytes()
+					if e != nil {
+						first = e
+						break
+					}
+					got = append(got, append([]byte(nil), c...))
+				}
+				if !errors.Is(first, errInjected) {
+					o.Fail("reader-error-lost", "spec %q: reader failed at %d but NextBytes ended with %v", spec, pos, first)
+				}
+				s2, _ := chunk.FromString(bytes.NewReader(data), spec)
+				want, _, _ := runAll(s2, len(data)+1)
+				for i, c := range got {
+					if i >= len(want) || !bytes.Equal(c, want[i]) {
+						o.Fail("reader-error-prefix", "spec %q: chunk %d emitted before the reader error differs from the error-free run", spec, i)
+						break
+					}
+				}
+				o.Kind("fail-" + describe(s).kind)
+			}
+			o.Emit("checked")
 		default:
 			o.Emit("bad-op")
 		}
 	}
 }
+
+// registered mirrors the process-wide registry (names are unique per case, see gen).
+var registered = map[string]bool{"size": true, "rabin": true, "buzhash": true}
+
+var errInjected = errors.New("injected reader error")
 
 // checkParams: the side conditions the chunk bounds rest on (monitor for c06_parse_sound).
 func checkParams(o *vh.Out, spec string, p params) {
@@ -389,7 +501,7 @@ func checkParams(o *vh.Out, spec string, p params) {
 		} else if p.min > p.max || p.max > uint64(chunk.ChunkSizeLimit) {
 			o.Fail("parse-unsound-rabin-max", "spec %q accepted with min %d max %d", spec, p.min, p.max)
 		}
-	case "buzhash":
+	case "buzhash", "custom":
 	default:
 		o.Fail("unknown-splitter", "spec %q gave %s", spec, p.kind)
 	}
@@ -612,7 +724,16 @@ func gen(r *vh.Rand, tier string, n int, emit func(vh.Case)) {
 			if ewd {
 				e = "1"
 			}
-			c.Ops = append(c.Ops, fmt.Sprintf("split %s %s %s %s %s", specHex(spec), e, frags, input, cands))
+			op := "split"
+			if cr.Chance(1, 5) {
+				op = "chan"
+			}
+			c.Ops = append(c.Ops, fmt.Sprintf("%s %s %s %s %s %s", op, specHex(spec), e, frags, input, cands))
+			if cr.Chance(1, 6) && len(input) < 4000 {
+				// the same splitter over a reader that fails with a non-EOF error somewhere
+				n := len(inputOf(input))
+				c.Ops = append(c.Ops, fmt.Sprintf("fail %s %s %s %d", specHex(spec), frags, input, cr.Intn(n+2)))
+			}
 		}
 		if i%bigEvery == bigEvery-1 {
 			// ---- a large case: buzhash around its min/max, default rabin, default size
@@ -669,6 +790,18 @@ func gen(r *vh.Rand, tier string, n int, emit func(vh.Case)) {
 			default: // periodic data with period near the window
 				pl := vh.Pick(cr, []int{31, 32, 33, 64})
 				split("buzhash", ewd, fr, fmt.Sprintf("p:%s:%d", vh.Hex(cr.Bytes(pl)), buzMin+cr.Range(0, 70000)), 0)
+			}
+			emit(c)
+			continue
+		}
+		if cr.Chance(1, 25) { // registry: Register's panics, dispatch to a custom chunker, built-ins untouched
+			nm := "Q" + strconv.Itoa(i)
+			for _, o := range []string{"register " + specHex(nm+"a"), "parse " + specHex(nm+"a-12-x"), "register " + specHex(nm+"a"),
+				"register " + specHex(""), "register " + specHex(nm+"-b"), "parse " + specHex(nm+"-b"),
+				"register " + specHex(vh.Pick(cr, []string{"size", "rabin", "buzhash"})), "parse " + specHex(nm+"a"),
+				"parse " + specHex(nm+"zz-1"), "register " + specHex(nm+"zz"), "parse " + specHex(nm+"zz-1"),
+				"parse " + specHex("size-5"), "parse " + specHex("rabin-48"), "parse " + specHex(randomSpec(cr))} {
+				c.Ops = append(c.Ops, o)
 			}
 			emit(c)
 			continue
